@@ -120,7 +120,11 @@ class ServerConn:
 class AppRun:
     CALLBACKS = ["on_open", "on_reconnect", "on_message", "on_data", "on_error", "on_close", "on_ping", "on_pong", "on_cont_message"]
 
-    def __init__(self, plan, url="ws://app.test/", callbacks=None, raising=None, app_kwargs=None, hooks=None, last_repeats=True, via_proxy=False):
+    def __init__(self, plan, url="ws://app.test/", callbacks=None, raising=None, app_kwargs=None, hooks=None, last_repeats=True, via_proxy=False,
+                 assign="ctor"):
+        # assign: how the application installs its callbacks - "ctor" (constructor arguments), "after-init" (attributes set on the
+        # object before run_forever) or "in-on_open" (all but on_open/on_cont_message set from inside on_open, while running)
+        self.assign = assign
         self.plan = plan
         self.url = url
         self.enabled = set(self.CALLBACKS[:8] if callbacks is None else callbacks)
@@ -219,9 +223,29 @@ class AppRun:
     def build(self):
         W = H.ws()
         shim.set_network(self.network)
-        kw = {n: self._cb(n) for n in self.enabled}
-        kw.update(self.app_kwargs)
-        self.app = W.WebSocketApp(self.url, **kw)
+        cbs = {n: self._cb(n) for n in self.enabled}
+        if self.assign == "ctor":
+            kw = dict(cbs)
+            kw.update(self.app_kwargs)
+            self.app = W.WebSocketApp(self.url, **kw)
+        elif self.assign == "after-init":
+            self.app = W.WebSocketApp(self.url, **self.app_kwargs)
+            for n, cb in cbs.items():
+                setattr(self.app, n, cb)
+        else:
+            early = {n: cb for n, cb in cbs.items() if n in ("on_open", "on_cont_message", "on_reconnect")}
+            late = {n: cb for n, cb in cbs.items() if n not in early}
+            user_open = early.get("on_open")
+
+            def on_open(app, *a):
+                for n, cb in late.items():
+                    setattr(app, n, cb)
+                if user_open is not None:
+                    user_open(app, *a)
+            early["on_open"] = on_open
+            kw = dict(early)
+            kw.update(self.app_kwargs)
+            self.app = W.WebSocketApp(self.url, **kw)
         return self.app
 
     def run_forever(self, **kw):
